@@ -416,6 +416,17 @@ def _scratch_store(m, op, vals, core):
     m.scratch[(base, tuple(m.get(vals, i) for i in op.indices))] = m.get(vals, op.value)
 
 
+@handler(scf.IndexSwitchOp)
+def _index_switch(m, op, vals, core):
+    v = m.get(vals, op.arg)
+    cases = [int(c) for c in op.cases.get_values()]
+    reg = op.case_regions[cases.index(v)] if v in cases else op.default_region
+    m.probe("switch-case" if v in cases else "switch-default")
+    r = yield from m.exec_block(reg.block, vals, core)
+    for res, x in zip(op.results, r.values if r is not None else []):
+        vals[res] = x
+
+
 @handler(scf.ExecuteRegionOp)
 def _execute_region(m, op, vals, core):
     # a region with unstructured control flow between its blocks; left through scf.yield
